@@ -15,7 +15,7 @@ PID = "C10"
 LEVEL = "exploration"
 RULE = ("enumerated: pair counts 1..4 x ALL Bell-state tuples (quick: all tuples for 1-2 pairs, 60 random tuples for 3-4) x "
         "API variant {recv_keep, recv_keep+post routine, recv_keep sequential+post routine, recv_keep_with_info, recv_rsp, "
-        "recv_rsp_with_info, create_keep, create_keep_with_info, create_keep sequential} x {generic, NV} hardware x 0..2 other live qubits in "
+        "recv_rsp_with_info, create_keep, create_keep_with_info, create_keep sequential, recv/create_keep_with_info sequential+post routine} x {generic, NV} hardware x 0..2 other live qubits in "
         "known asymmetric states (shifting the virtual IDs) x expect_phi_plus on/off; measure-directly: 6 named bases x 4 "
         "Bell states x both raw outcomes, exact joint distribution computed with R-QUANTUM. Oracle: fidelity of each kept "
         "qubit with its modelled remote partner >= 1-1e-9 w.r.t. Phi+ (or the delivered Bell state when nothing may be "
@@ -36,7 +36,8 @@ KF_RSP_RETRY = "epr-recv-rsp-retry:no-clean-up-between-attempts"
 
 KF_RECV_BASIS = "recv-measure:post-processing-assumes-Z-basis"
 VARIANTS = ["recv_keep", "recv_keep_post", "recv_keep_seq", "recv_keep_with_info", "recv_rsp", "recv_rsp_with_info",
-            "create_keep", "create_keep_seq", "recv_keep_retry", "recv_keep_seq_retry", "create_keep_retry", "recv_rsp_retry", "recv_keep_seq1", "create_keep_seq1", "create_keep_with_info"]
+            "create_keep", "create_keep_seq", "recv_keep_retry", "recv_keep_seq_retry", "create_keep_retry", "recv_rsp_retry", "recv_keep_seq1", "create_keep_seq1", "create_keep_with_info",
+            "recv_keep_with_info_seq", "create_keep_with_info_seq"]
 OTHER_STATES = [np.array([math.cos(0.4), math.sin(0.4) * np.exp(0.7j)]), np.array([math.cos(1.1), math.sin(1.1) * np.exp(-1.3j)])]
 PAULI_FOR_BELL = {0: [], 1: ["x"], 2: ["x", "z"], 3: ["z"]}   # correction turning |b> into Phi+ (applied to one half)
 
@@ -211,6 +212,11 @@ def _request(es, var, n, expect, post):
         return es.create_keep_with_info(n)
     if var == "create_keep_seq":
         return es.create_keep(n, post_routine=post, sequential=True), None
+    # (the *_with_info entry points take the same post routine / sequential arguments)
+    if var == "recv_keep_with_info_seq":
+        return es.recv_keep_with_info(n, post_routine=post, sequential=True, expect_phi_plus=expect)
+    if var == "create_keep_with_info_seq":
+        return es.create_keep_with_info(n, post_routine=post, sequential=True)
     raise ValueError(var)
 
 
